@@ -98,6 +98,15 @@ def main():
         for d in sorted(glob.glob(os.path.join(ROOT, "docs", "DESIGN-*.md"))):
             notes.append(open(d, encoding="utf-8").read().rstrip("\n") + "\n")
         s = s[:s.index(nb) + len(nb)] + "\n" + "\n".join(notes) + s[s.index(ne):]
+    sb, se = "<!-- BEGIN GENERATED STRENGTHEN -->", "<!-- END GENERATED STRENGTHEN -->"
+    if sb in s and se in s:
+        notes = []
+        for d in sorted(glob.glob(os.path.join(ROOT, "docs", "STRENGTHEN-*.md"))):
+            text = open(d, encoding="utf-8").read().rstrip("\n")
+            # demote headings so that they nest under §9.5
+            text = re.sub(r"^(#+) ", lambda m: "#" * (len(m.group(1)) + 4) + " ", text, flags=re.M)
+            notes.append(text + "\n")
+        s = s[:s.index(sb) + len(sb)] + "\n" + "\n".join(notes) + s[s.index(se):]
     open(p, "w", encoding="utf-8").write(s)
 
 
